@@ -104,13 +104,13 @@ func c16(r *core.Run) {
 		case 1:
 			if len(written) > 0 {
 				i := src.Intn(len(written))
-				c16Remove(r, e, dirs, written[i].name, written[i].path, true)
+				c16Remove(r, e, dirs, written[i].name, written[i].path, true, faultDen)
 			} else {
-				c16Remove(r, e, dirs, "never-written-"+fmt.Sprint(s), "", false)
+				c16Remove(r, e, dirs, "never-written-"+fmt.Sprint(s), "", false, 0)
 			}
 		case 2:
 			nm := "never-written" + []string{"", ".json", ".yaml"}[src.Intn(3)]
-			c16Remove(r, e, dirs, nm, "", false)
+			c16Remove(r, e, dirs, nm, "", false, 0)
 		}
 		c16Check(r, e, dirs, auto, fmt.Sprintf("op %d", s+1))
 		src.End()
@@ -317,16 +317,39 @@ func c16ContentOK(data string, raw *specs.Spec, wantJSON bool) bool {
 	return string(a) == string(b)
 }
 
-func c16Remove(r *core.Run, e *env, dirs []string, name, path string, exists bool) {
+func c16Remove(r *core.Run, e *env, dirs []string, name, path string, exists bool, faultDen int) {
 	last := dirs[len(dirs)-1]
 	target := expectedPath(last, name)
 	_, present := e.w.FS.Lookup(target)
 	before := e.w.FS.Snapshot("/")
 	histFrom := len(e.w.FS.Hist)
 	var rerr error
+	// in the fault-injecting configuration the removal itself may fail (EIO):
+	// then the call must not claim success while the file is still there
+	fired := false
+	if faultDen > 0 && present && r.Src.Bool(1, 3) {
+		e.w.Policy = func(t *sched.Task, op *sched.Op) sched.Decision {
+			if t.Proc != e.app || !strings.HasPrefix(t.Name, "RemoveSpec") || fired || op.Kind != "unlink" || len(op.Faults) == 0 {
+				return sched.Decision{}
+			}
+			fired = true
+			return sched.Decision{Err: op.Faults[0]}
+		}
+	}
 	e.do("RemoveSpec", func() { rerr = e.cache.RemoveSpec(name) })
-	r.Notef("RemoveSpec(%q) -> %v (file present before: %v)", name, rerr, present)
+	e.w.Policy = nil
+	r.Notef("RemoveSpec(%q) -> %v (file present before: %v, unlink fault injected: %v)", name, rerr, present, fired)
 	what := fmt.Sprintf("RemoveSpec(%q)", name)
+	if fired {
+		_, still := e.w.FS.Lookup(target)
+		if rerr == nil && still {
+			r.Failf("remove", "silent-failure", "%s returned no error although unlink(%s) failed with an I/O error and the file is still there", what, target)
+		}
+		if !reflect.DeepEqual(before, e.w.FS.Snapshot("/")) && still {
+			r.Failf("remove", "not-exactly-that-file", "%s with a failing unlink changed the file system although %s is still there", what, target)
+		}
+		return
+	}
 	if rerr != nil {
 		r.Failf("remove", "error", "%s failed: %v (file present before: %v)", what, rerr, present)
 	}
